@@ -150,6 +150,13 @@ func tryQueueReloadRequest(
 			log.Warnln("[Reload] Reload already in progress or handoff pending; ignoring this signal")
 		}
 		restoreRejectedReloadProgress(reloadActive, false)
+		if !reloadPending.Load() {
+			// The reload that held the token finished while this rejection was being
+			// reported: its clearRejectedReloadProgress may already have run, so the busy
+			// mark written above would stay in the progress file forever and make
+			// `dae reload` refuse to signal. Clear it ourselves.
+			clearRejectedReloadProgress()
+		}
 		return false
 	}
 	beginReloadProxyFailureSuppression()
